@@ -33,6 +33,8 @@ type Block struct {
 	Txs []TxSpec
 	// SkipTo > 0: after this block, run empty blocks up to and including height SkipTo
 	SkipTo int64
+	// EveryHeight: the empty blocks up to SkipTo are stream positions too (deviations, restarts between them)
+	EveryHeight bool
 }
 
 type Script struct {
@@ -84,17 +86,18 @@ func deliverHash(r abci.ResponseDeliverTx) string {
 // Env hooks are provided by env_ovl.go (overlay build) or env_std.go.
 
 type runner struct {
-	sc     *Script
-	w      *world.World
-	h      int64
-	homes  []string
-	txs    [][]byte // all tx bytes built so far
-	specs  []TxSpec // flattened transaction specs of the script (for checktx / simulate insertion by index)
-	Applied int     // non-consensus calls / restarts actually performed
-	pos    int
-	dev    []Deviation
-	tr     *Transcript
-	queryN int
+	sc        *Script
+	w         *world.World
+	h         int64
+	homes     []string
+	txs       [][]byte // all tx bytes built so far
+	specs     []TxSpec // flattened transaction specs of the script (for checktx / simulate insertion by index)
+	Applied   int      // non-consensus calls / restarts actually performed
+	QueriesOK int      // queries answered without error
+	pos       int
+	dev       []Deviation
+	tr        *Transcript
+	queryN    int
 }
 
 var queryPaths = []string{
@@ -164,11 +167,20 @@ func (r *runner) at(committed bool) {
 			}
 		case "query":
 			if committed {
-				func() {
-					defer func() { recover() }()
-					r.w.App.Query(abci.RequestQuery{Path: queryPaths[int(d.Arg)%len(queryPaths)], Height: 0})
-					r.Applied++
-				}()
+				// the whole menu (every query method of the six custom modules, single-item queries once per key of the
+				// committed state) plus a bank query; d.Arg is kept for old witness files only
+				qs := append(AllQueries(r.w, r.w.App.NewContext(true, r.w.Header(r.h))), abci.RequestQuery{Path: queryPaths[4]})
+				for _, q := range qs {
+					q := q
+					func() {
+						defer func() { recover() }()
+						res := r.w.App.Query(q)
+						r.Applied++
+						if res.Code == 0 {
+							r.QueriesOK++
+						}
+					}()
+				}
 			}
 		}
 	}
@@ -210,12 +222,18 @@ func Run(sc *Script, dev []Deviation) (tr *Transcript, positions int, applied in
 		w.Close()
 	}()
 	committed := false
-	emptyBlocks := func(to int64) {
+	emptyBlocks := func(to int64, positions bool) {
 		for r.h <= to {
+			if positions {
+				r.at(true)
+			}
 			eb := r.w.App.EndBlock(abci.RequestEndBlock{Height: r.h})
 			ebz, _ := eb.Marshal()
 			c := r.w.App.Commit()
 			r.tr.Items = append(r.tr.Items, Item{What: fmt.Sprintf("end+commit %d", r.h), Hash: hashOf(ebz, c.Data)})
+			if positions && r.has("restart", r.pos-1) {
+				r.restart()
+			}
 			r.h++
 			bb := r.w.App.BeginBlock(abci.RequestBeginBlock{Header: r.w.Header(r.h)})
 			bbz, _ := bb.Marshal()
@@ -269,7 +287,7 @@ func Run(sc *Script, dev []Deviation) (tr *Transcript, positions int, applied in
 		bbz, _ := bb.Marshal()
 		r.tr.Items = append(r.tr.Items, Item{What: fmt.Sprintf("begin %d", r.h), Hash: hashOf(bbz)})
 		if blk.SkipTo > 0 {
-			emptyBlocks(blk.SkipTo)
+			emptyBlocks(blk.SkipTo, blk.EveryHeight)
 		}
 	}
 	return r.tr, r.pos, r.Applied, len(r.specs)
@@ -330,7 +348,6 @@ func RunBlocks(sc *Script, n int) (*world.World, int64) {
 	}
 	return w, r.h
 }
-
 
 // RunPart executes blocks [from, to) of the script on the application of w (a child process of the real-restart
 // leg of C03). from == 0 expects a fresh world (InitChain + BeginBlock(1) done); otherwise the application has just
